@@ -28,12 +28,24 @@ class Ctx:
     def count(self, key, n=1):
         self.stats[key] = self.stats.get(key, 0) + n
 
+def _jsonable(x):
+    """replay records must be JSON: bytes become hex strings, tuples lists, unknown objects their repr"""
+    if isinstance(x, (bytes, bytearray)):
+        return bytes(x).hex()
+    if isinstance(x, dict):
+        return {str(k): _jsonable(v) for k, v in x.items()}
+    if isinstance(x, (list, tuple)):
+        return [_jsonable(v) for v in x]
+    if isinstance(x, (str, int, float, bool)) or x is None:
+        return x
+    return repr(x)
+
 class Failure:
     """A concrete input on which the property fails on the real code."""
     def __init__(self, oracle, args, what, tags=None):
         self.oracle, self.args, self.what, self.tags = oracle, args, what, dict(tags or {})
     def to_json(self):
-        return {"oracle": self.oracle, "args": self.args, "what": self.what, "tags": self.tags}
+        return {"oracle": self.oracle, "args": _jsonable(self.args), "what": self.what, "tags": _jsonable(self.tags)}
 
 # ----------------------------------------------------------------------------- lake / proof
 
